@@ -307,6 +307,18 @@ class Runner:
         it = arrays.get('item')
         if it is not None and np.ndim(it) == 1:
             pairs.append((top(w['agent'][3]), tuple(int(v) for v in it)))
+        if rep_name in ('no-overlap', 'compact'):
+            # documented for both: "no overlap across channels, meaning that each channel uses separate indices"
+            chans = cl.codes.setdefault(('channels', kind, rep_name), [set(), set(), set()])
+            for _, code in pairs:
+                for ch in range(min(3, len(code))):
+                    chans[ch].add(code[ch])
+            for a in range(3):
+                for b in range(a + 1, 3):
+                    common = chans[a] & chans[b]
+                    if common:
+                        self.violate('channels_overlap', where, f'{kind}:{rep_name}', f'index {sorted(common)[0]} is used in channel {a} and in channel {b}')
+                        return False
         for d, code in pairs:
             if d2c.setdefault(d, code) != code:
                 self.violate('code_not_a_function_of_object', where, f'{kind}:{rep_name}', f'{d} encoded as {code} and earlier as {d2c[d]}')
